@@ -376,6 +376,27 @@ def run(prop, tier="quick", seed=0, replay_path=None):
         except Exception:
             status["errors"].append(traceback.format_exc())
 
+    # a function that left the verifier's reach (refactored beyond the contract's object model, an unmodelled library call):
+    # the module's bounded replay stands in - labelled bounded, never counted as discharged. A failure it reproduces on the real
+    # code is reported as a violation of the out-of-reach obligation; otherwise the verdict stays "undecided" (exit 2).
+    if status["out_of_reach"] and hasattr(mod, "replay") and (getattr(mod, "REPLAY_UNDECIDED", False) or getattr(mod, "REPLAY_OUT_OF_REACH", False)):
+        import types
+        from .sym import Obligation
+        pseudo = Obligation("%s/out-of-reach/bounded-stand-in" % prop, [prop], [], z3.BoolVal(True), meta={"out_of_reach": status["out_of_reach"]})
+        try:
+            rep = mod.replay(pseudo, types.SimpleNamespace(model={}))
+        except Exception:
+            rep = {"reproduced": False, "error": traceback.format_exc()}
+        b = {"id": "out-of-reach-stand-in", "bounded": True, "why": status["out_of_reach"], "replay": rep}
+        bounded.append(b)
+        if rep and rep.get("reproduced"):
+            os.makedirs(replay_dir, exist_ok=True)
+            rp = os.path.join(replay_dir, "out-of-reach_bounded-stand-in.json")
+            json.dump({"property": prop, "obligation": pseudo.id, "verifier_output": "OUT-OF-REACH: " + "; ".join(status["out_of_reach"]),
+                       "bounded": True, "replay": rep}, open(rp, "w"), indent=1, default=str)
+            out_lines.append("VIOLATION property=%s replay=%s" % (prop, rp))
+            viol_records.append({"obligation": pseudo.id, "reproduced": True})
+
     # engine / axiom cross-checks against CPython
     cross = {}
     if hasattr(mod, "crosscheck"):
